@@ -325,15 +325,16 @@ class Verifier:
                 if only is not None and k.key in only and cl.label not in only[k.key]:
                     continue  # this run is about other clauses of the contract (they are the subject of another property's check)
                 hz = []
+                lz = [smt.lift(x).z for x in cl.lemmas(ctx)] if cl.lemmas is not None else []  # instances of laws (spec/laws.py)
                 if cl.hints is not None:
                     for hi, h in enumerate(cl.hints(ctx)):
                         z = smt.lift(h).z
-                        out.append(mk(f"{cl.label}/hint{hi}", z, "hint"))
+                        ho = mk(f"{cl.label}/hint{hi}", z, "hint")
+                        ho.pc = ho.pc + hz + lz  # earlier hints and the law instances are available to later hints
+                        out.append(ho)
                         hz.append(z)
                 o = mk(cl.label, smt.lift(cl.fn(ctx)).z, "post")
-                o.pc = o.pc + hz  # each hint is proved separately (obligation above) before it is used
-                if cl.lemmas is not None:
-                    o.pc = o.pc + [smt.lift(x).z for x in cl.lemmas(ctx)]
+                o.pc = o.pc + hz + lz  # each hint is proved separately (obligation above) before it is used
                 out.append(o)
             for lab, excs, cond in k.must_raise:
                 out.append(mk(lab, z3.Not(smt.lift(cond(ctx)).z), "must-raise", excs=list(excs)))
